@@ -45,9 +45,10 @@ CLAIMED = {
             'degenerate duration where there is no load; single average segment outside the retention window; monthly peak/day equal the raw '
             'profile; 48 h window indices for every peak day. Durations: 0 < d <= 48 h and finite through the real find_peak_durations / '
             'perform_current_month_simulation / simulate_hourly for concrete g-functions of real boreholes (1 quick, 2 thorough) and one symbolic '
-            'load magnitude per unit (peak or previous-day load, catalogue of months/days/base profiles).',
-            'NOT claimed: the Cullin-Spitler equivalence itself (numerical g_sts); duration bound for load shapes / boreholes outside the '
-            'catalogue. interp1d by contract; in the pulse units the duration is an arbitrary value in (0,48].', '3/C07', None),
+            'load magnitude per unit (peak or previous-day load, catalogue of months/days/base profiles); Cullin-Spitler equivalence of the '
+            'reported duration recomputed from the raw profile where peak and average are concrete.',
+            'NOT claimed: duration bound / equivalence for load shapes and boreholes outside the catalogue; equivalence with a symbolic '
+            'peak or average (z3 unknown). interp1d by contract; in the pulse units the duration is an arbitrary value in (0,48].', '3/C07', None),
     'C08': ('Axis starts at 0, has every month end (independent closed-form calendar), ends at the horizon, replicates year-1 values, and is '
             'strictly increasing under the stated premise - for all symbolic monthly tables; calendar helpers for every month index 1..360.',
             'as C06; single-year load files only', '3/C08', None),
